@@ -98,12 +98,17 @@ class ConnectRequestInformation:
 
     def from_knx(self, raw: bytes) -> int:
         """Parse/deserialize from KNX/IP raw data."""
+        if len(raw) < ConnectRequestInformation.CRI_LENGTH:
+            raise CouldNotParseKNXIP("CRI data has wrong length")
         cri_length = raw[0]
         if len(raw) < cri_length:
             raise CouldNotParseKNXIP("CRI data has wrong length")
         if cri_length < ConnectRequestInformation.CRI_LENGTH:
             raise CouldNotParseKNXIP("CRI length too small")
-        self.connection_type = ConnectRequestType(raw[1])
+        try:
+            self.connection_type = ConnectRequestType(raw[1])
+        except ValueError as err:
+            raise CouldNotParseKNXIP("CRI has unsupported connection type") from err
         if self._is_tunnel_cri():
             if cri_length == ConnectRequestInformation.CRI_TUNNEL_LENGTH:
                 extended = False
@@ -111,7 +116,10 @@ class ConnectRequestInformation:
                 extended = True
             else:
                 raise CouldNotParseKNXIP("CRI has wrong length")
-            self.knx_layer = TunnellingLayer(raw[2])
+            try:
+                self.knx_layer = TunnellingLayer(raw[2])
+            except ValueError as err:
+                raise CouldNotParseKNXIP("CRI has unsupported tunnelling layer") from err
             self.individual_address = (
                 IndividualAddress.from_knx(raw[4:6]) if extended else None
             )
